@@ -443,6 +443,13 @@ pub struct ThreadSpec {
     /// reaches that tick/probe site - preemption inside rarely taken paths.
     #[serde(default)]
     pub preempt_sites: Vec<(u32, u64)>,
+    /// (rank, permille): further site-targeted yields, resolved when the
+    /// scenario is executed against what a calibration rendering of the
+    /// document actually reaches: the rank-th of the sites that were reached
+    /// (modulo their number), at that fraction of its occurrences.  Sites
+    /// that this document never reaches are not wasted on.
+    #[serde(default)]
+    pub preempt_hit: Vec<(u32, u32)>,
 }
 
 #[derive(Serialize, Deserialize, Clone, Debug, PartialEq, Eq)]
